@@ -133,6 +133,39 @@ class C19(vlib.Check):
                     ops = ['new,0,' + hx(rstr(rng, tgt)), 'hexfail,0,%s,M=throw:codec_error:%s' % (hx(bad), temps),
                            'reads,0', 'set,0,' + hx(rstr(rng, 20)), 'del,0']
                     yield 'str 4 %s failat=%d@1' % (';'.join(ops), k)
+        # --- the static constructors from numbers: the text is heap allocated from 16 characters on, which for the narrow
+        #     types happens only in small bases (so nothing about them may be declared non-throwing)
+        def digits(v, base, upper=False):
+            ds = '0123456789abcdefghijklmnopqrstuvwxyz'
+            if upper:
+                ds = ds.upper()
+            n, out = abs(v), ''
+            while True:
+                out = ds[n % base] + out
+                n //= base
+                if n == 0:
+                    break
+            return ('-' if v < 0 else '') + out
+        for ty, lo, hi in (('short', -2 ** 15, 2 ** 15 - 1), ('int', -2 ** 31, 2 ** 31 - 1), ('long', -2 ** 63, 2 ** 63 - 1), ('llong', -2 ** 63, 2 ** 63 - 1)):
+            for base in (2, 3, 4, 8, 10, 16, 36):
+                for v in (lo, hi, lo // 2, 16384, -16384, 32768, 0, -1):
+                    if not lo <= v <= hi:
+                        continue
+                    t = digits(v, base).encode()
+                    for k in (0, 1):
+                        yield 'str 4 new,1,%s;fromint,0,%s,%d,%d,M=mctor:%s;reads,1;del,1 failat=%d@1' % (hx(rstr(rng, 20)), ty, v, base, hx(t), k)
+        for ty, hi in (('ushort', 2 ** 16 - 1), ('uint', 2 ** 32 - 1), ('ulong', 2 ** 64 - 1), ('ullong', 2 ** 64 - 1)):
+            for base in (2, 3, 4, 10, 16):
+                for v in (hi, hi // 2 + 1, 32768, 0):
+                    if v > hi:
+                        continue
+                    t = digits(v, base, True).encode()
+                    yield 'str 4 new,1,%s;fromuint,0,%s,%d,%d,M=mctor:%s;reads,1;del,1 failat=0@1' % (hx(rstr(rng, 20)), ty, v, base, hx(t))
+        for b in (0, 1):
+            yield 'str 4 new,1,6162;frombool,0,%d,M=mctor:%s;reads,1 failat=0@1' % (b, hx(b'true' if b else b'false'))
+        for n in (0, 15, 16, 40):
+            for k in (0, 1):
+                yield 'str 4 new,1,6162;sfill,0,%d,120,M=mctor:%s;reads,1 failat=%d@1' % (n, hx(b'x' * n), k)
         # --- stream extraction into a string, every allocation faulted (the token's std::basic_string growth first — F
         #     allocations of libstdc++, an oracle — then the library's own)
         for n in (5, 15, 16, 20, 30, 31, 40, 100):
